@@ -244,7 +244,7 @@ func (c *Chain) Observe() *Observation {
 		}
 	}
 
-	svcs := map[string]bool{"zz": true, "s": true, "s1": true, "s-1": true, "S1": true}
+	svcs := map[string]bool{"zz": true, "s": true, "s1": true, "s2": true, "s-1": true, "S1": true}
 	for _, d := range st.Defs {
 		svcs[d.Name] = true
 	}
